@@ -387,7 +387,7 @@ pub fn round_u32() -> Vec<u32> {
 }
 
 pub fn parts() -> Vec<Box<dyn DynPart>> {
-    vec![Box::new(OneHot), Box::new(RandomImages), Box::new(crate::props::c03::OneCodec("c02")), Box::new(IntSweep), Box::new(PairSweep)]
+    vec![Box::new(OneHot), Box::new(RandomImages), Box::new(crate::props::c03::OneCodec("c02")), Box::new(crate::props::c03::SameTextSeq("c02")), Box::new(IntSweep), Box::new(PairSweep)]
 }
 
 pub fn run(run: &mut Run) {
@@ -480,4 +480,6 @@ pub fn run(run: &mut Run) {
     // refused packets among them, every frame compared with a fresh codec's
     let n = run.budget(30_000, 1_500_000);
     run.prop(&crate::props::c03::OneCodec("c02"), crate::props::c03::seq_strategy(), n);
+    let n = run.budget(30_000, 1_000_000);
+    run.prop(&crate::props::c03::SameTextSeq("c02"), crate::props::c03::same_text_strategy(), n);
 }
